@@ -713,7 +713,7 @@ func seedStream(seed int64, k int) []uint64 {
 }
 
 func (prop) Run(line string) core.Outcome {
-	if strings.HasPrefix(line, "prx ") || strings.HasPrefix(line, "key ") || strings.HasPrefix(line, "ck ") || strings.HasPrefix(line, "cf ") || strings.HasPrefix(line, "rp ") || strings.HasPrefix(line, "tim ") || strings.HasPrefix(line, "sc ") || strings.HasPrefix(line, "ah ") {
+	if strings.HasPrefix(line, "prx ") || strings.HasPrefix(line, "key ") || strings.HasPrefix(line, "ck ") || strings.HasPrefix(line, "cf ") || strings.HasPrefix(line, "rp ") || strings.HasPrefix(line, "tim ") || strings.HasPrefix(line, "sc ") || strings.HasPrefix(line, "ah ") || strings.HasPrefix(line, "dy ") {
 		var f []string
 		for _, p := range strings.Split(line, " ") {
 			if p != "" {
@@ -735,6 +735,8 @@ func (prop) Run(line string) core.Outcome {
 			return runSc(f)
 		case "ah":
 			return runAh(f)
+		case "dy":
+			return runDy(f)
 		}
 		return runCk(f)
 	}
